@@ -182,6 +182,17 @@ def run_closure(eng, ctx, clo, args):
         out = eng.run(ctx, until_depth=base)
     finally:
         eng.merging = merging
+    if len(out) == 1 and out[0][0] == "leaf" and out[0][1].status == "done":
+        return out[0][1].ret
+    if len(out) == 1 and out[0][0] == "ctx" and out[0][1] is not ctx:
+        raise Unsupported(f"closure {clo.span} is not straight-line")
+    # a fork whose alternatives but one are infeasible still returns a context: keep running it
+    while len(out) == 1 and out[0][0] == "ctx" and out[0][1] is ctx:
+        merging, eng.merging = eng.merging, False
+        try:
+            out = eng.run(ctx, until_depth=base)
+        finally:
+            eng.merging = merging
     if len(out) != 1 or out[0][0] != "leaf" or out[0][1].status != "done":
         raise Unsupported(f"closure {clo.span} is not straight-line")
     return out[0][1].ret
